@@ -15,10 +15,20 @@ package core
 //@ specfunc sliceid(b []byte) int
 //@ specfunc hashok(id int, name string) bool = sha256hex(id) == name
 
-// Assumed (the format string and hex validation are not modelled).
+// A digest's hex part is what content-addressed stores use as a file name (C11): every way of
+// making a Digest from outside text validates it as 64 hexadecimal characters (hexstr, from the
+// assumed contract of hex.DecodeString), so it contains no path separator and no dot.
+//@ func ValidateSHA256
+//@   ensures hex64: result == nil ==> len(s) == 64 && hexstr(s)
+
+// The raw form (format string) is not modelled: raw_format is assumed.
 //@ func NewSHA256DigestFromHex
-//@   trusted
-//@   ensures built: result1 == nil ==> result0.algo == SHA256 && result0.hex == hex && result0.raw == rawOf(hex)
+//@   ensures built: result1 == nil ==> result0.algo == SHA256 && result0.hex == hex
+//@   ensures validated: result1 == nil ==> len(result0.hex) == 64 && hexstr(result0.hex)
+//@   lemma raw_format: result1 == nil ==> result0.raw == rawOf(hex)
+
+//@ func ParseSHA256Digest
+//@   ensures validated: result1 == nil ==> result0.algo == SHA256 && len(result0.hex) == 64 && hexstr(result0.hex)
 
 // Assumed: the digester hashes exactly what the reader yields.
 //@ func Digester.FromReader
